@@ -793,4 +793,27 @@ def cfgSmall : FloodCfg :=
   { maxRst := 2, maxPing := 2, maxSettings := 2, maxEmptyData := 2, maxWu0 := 2, maxCont := 2, maxGlitch := 2,
     maxRstLife := 5, maxRstAbusive := 3, maxRstEmitted := 3, maxHeaderList := 100 }
 
+/-- the first-SETTINGS path agrees with the `frame_body` path when the length
+    is a multiple of 6 or when `h2.rs` repeats the length check in that state -/
+theorem firstSettings_eq_frameBody (i : Bytes)
+    (h6 : Consts.h2FirstSettingsChecksLen = true ∨ i.length % Consts.h2SettingsEntrySize = 0) :
+    firstSettings i = frameBody i { len := i.length, ftype := .settings, flags := 0, sid := 0 } := by
+  have hack : flagSet 0 Consts.h2FlagAck = false := by decide
+  unfold firstSettings frameBody
+  rcases h6 with h | h
+  · by_cases h6 : i.length % Consts.h2SettingsEntrySize = 0 <;> simp [h, h6, hack]
+  · simp [h, hack]
+
+
+/-- what F24 was: without the check a 7-byte first SETTINGS is accepted -/
+theorem firstSettings_witness_if_unchecked (hopen : Consts.h2FirstSettingsChecksLen = false) :
+    firstSettings [0, 3, 0, 0, 0, 100, 0] = .ok (.settings [(3, 100)] false) [] ∧
+    frameBody [0, 3, 0, 0, 0, 100, 0] { len := 7, ftype := .settings, flags := 0, sid := 0 }
+      = .fail FRAME_SIZE_ERROR := by
+  refine ⟨?_, by decide⟩
+  unfold firstSettings
+  rw [hopen]
+  decide
+
+
 end Sozu.H2Wire
